@@ -231,6 +231,11 @@ class Interp:
         self.unknown_calls = defaultdict(int)
         self.dedup = dedup
         self.seen = set()
+        self.summarize = set()        # shorts of local functions replaced by their E1 store summary
+        self.visited_blocks = set()   # (body id, bb) of executed terminators (coverage)
+        self.assumed_sites = set()    # Assert sites whose condition was unknown and assumed to hold
+        self.inspect_roots = set()
+        self.inspected = None         # optional set: (root, path) of scalar leaves / variant tags read
         # http 1.1.0, src/method.rs: `pub const GET: Method = Method(Get);` etc.
         self.variant_links = {"http::method::Inner": {
             "Options": "Method::OPTIONS", "Get": "Method::GET", "Post": "Method::POST", "Put": "Method::PUT",
@@ -304,7 +309,10 @@ class Interp:
 
     def read_place(self, st, fr, place):
         root, path = self.eval_place(st, fr, place)
-        return st.read_tree(root, path)
+        t = st.read_tree(root, path)
+        if self.inspected is not None and (root[0] == "OBJ" or root in self.inspect_roots) and len(t) == 1:
+            self.inspected.add((root, path))
+        return t
 
     def promoted_value(self, st, fr, op):
         idx = op["promoted"]
@@ -593,9 +601,26 @@ class Interp:
             if k[0] in ("is", "discr"):
                 return [k[1]]
             return [k]
+        def is_live(o, depth=0):
+            if o in live:
+                return True
+            if depth > 6 or not isinstance(o, tuple) or not o:
+                return False
+            if o[0] in ("proj", "deref", "len", "cast", "not"):
+                return is_live(o[1], depth + 1)     # derived on the fly from a live base
+            if o[0] == "app":
+                # pure application: can be regenerated whenever its arguments are still around
+                args = [x[1] for x in o[2:] if isinstance(x, tuple) and x and x[0] == "term"]
+                return bool(args) and all(is_live(a, depth + 1) for a in args)
+            if o[0] in ("lt", "eq", "arith", "min", "satsub"):
+                sub = [x[1] for x in o[1:] if isinstance(x, tuple) and x and x[0] == "term"]
+                return bool(sub) and all(is_live(a, depth + 1) for a in sub)
+            if o[0] == "in":
+                return True
+            return False
         for k in list(st.facts):
             ops = operands(k)
-            if ops and not any(o in live for o in ops):
+            if ops and not any(is_live(o) for o in ops):
                 del st.facts[k]
 
     def state_key(self, st):
@@ -641,6 +666,8 @@ class Interp:
         en = rv.get("enum")
         droot, dpath = self.eval_place(st, fr, s["place"])
         vleaf = st.mem.get(root, {}).get(path + (("$v",),))
+        if self.inspected is not None and (root[0] == "OBJ" or root in self.inspect_roots):
+            self.inspected.add((root, path + (("$v",),)))
         if en is None:
             st.write_leaf(droot, dpath, TOP)
             return None
@@ -866,6 +893,7 @@ class Interp:
     # ---- terminators
     def exec_term(self, st, fr, t):
         k = t["k"]
+        self.visited_blocks.add((fr.body.id, fr.bb))
         if k == "goto":
             return self.goto(st, fr, t["target"])
         if k == "drop":
@@ -981,6 +1009,7 @@ class Interp:
                 return [Outcome("panic", st, info=site)]
         if self.assume_unknown_asserts:
             st.assumed.append((fr.body.id, fr.bb, t["msg"]["kind"]))
+            self.assumed_sites.add((fr.body.id, fr.bb))
             if c[0] == "term":
                 self.assume(st, c[1], bool(exp))
             return self.goto(st, fr, t["target"])
@@ -1015,8 +1044,70 @@ class Interp:
             body = self.prog.bodies[rid]
             if body.short in self.opaque:
                 return call.ret_app(path)
+            if body.short in self.summarize:
+                return self.apply_summary(call, body)
             return self.enter(st, fr, body, args, dest, t["target"])
         return self.default_foreign(call)
+
+    def apply_summary(self, call, body):
+        """replace a call to a local function by its E1 store summary: every location it may store
+        to becomes unknown (an enum location: one of the variants the callee assigns, or its
+        current one); the result is an uninterpreted atom"""
+        from .effects import effects_of
+        eff = effects_of(self.prog)
+        st = call.st
+        key = (self.stack_key(st), call.fr.bb)
+        nvis = st.visits.get(key, 0)
+        for (pi, path) in sorted(eff.summary[body.id], key=repr):
+            if pi - 1 >= len(call.args):
+                continue
+            l = tree_leaf(call.args[pi - 1])
+            if l[0] != "ref":
+                continue
+            root, p = l[1], l[2]
+            stop = False
+            feasible = True
+            for step in path:
+                if step.startswith("<"):
+                    stop = True
+                    break
+                if step.startswith("as "):
+                    cur = st.mem.get(root, {}).get(p + (("$v",),))
+                    if cur and cur[0] == "variant" and cur[1] != step[3:]:
+                        feasible = False
+                        break
+                    p = p + (("v", step[3:]),)
+                elif step == "[]":
+                    p = p + (("f", "[]"),)
+                else:
+                    p = p + (("f", step),)
+            if not feasible:
+                continue
+            kinds = eff.kinds[body.id].get((pi, path), {"other"})
+            if not stop and kinds and all(isinstance(k, tuple) for k in kinds):
+                cur = st.mem.get(root, {}).get(p + (("$v",),))
+                vs = set(k[1] for k in kinds)
+                known = True
+                if cur and cur[0] == "variant":
+                    vs.add(cur[1])
+                elif cur and cur[0] == "variants":
+                    vs |= set(cur[1])
+                else:
+                    known = False
+                st.write_tree(root, p, leaf_tree(TOP))
+                if known:
+                    st.write_leaf(root, p + (("$v",),), ("variant", next(iter(vs))) if len(vs) == 1
+                                  else ("variants", frozenset(vs)))
+            else:
+                new = ("term", ("hv", pi, body.id, call.fr.body.id, call.fr.bb, nvis)) if nvis < self.loop_bound else TOP
+                st.write_tree(root, p, leaf_tree(new))
+        res = TOP
+        if nvis < self.loop_bound:
+            res = ("term", ("call", call.path, call.fr.body.id, call.fr.bb, nvis))
+        if short(call.term["dest"]["ty"]) in ("()", "!"):
+            res = UNIT
+        st.write_tree(call.dest[0], call.dest[1], leaf_tree(res))
+        return self.goto(st, call.fr, call.term["target"])
 
     def find_axiom(self, path):
         ax = self.axioms.get(path)
@@ -1036,6 +1127,13 @@ class Interp:
         st.frames.append(nf)
         for i, a in enumerate(args):
             st.write_tree(("L", uid, i + 1), (), a)
+        if self.dedup and on_return is None and len(body.blocks) > 8:
+            # state merging at the entry of (non-trivial) local functions
+            self.gc_facts(st)
+            k = ("enter", self.stack_key(st), self.state_key(st))
+            if k in self.seen:
+                return []
+            self.seen.add(k)
         # closures / fns receiving tupled args ("rust-call" ABI) are handled by callers
         return None
 
